@@ -15,6 +15,10 @@
                            200 000 times under /Count 2 000 000 000, an object stream announcing 10^8 members, a TJ array
                            of a million elements, 48 MB of content behind 48 KB of zlib, a cross-reference stream of two
                            million free entries behind 10 KB
+     Run(place, filler, n) a small valid file with a run of n copies of a token every reader skips (a comment, a blank, a
+                           line end, a NUL or form feed, a stray delimiter, a control or Latin-1 byte tolerated in lenient modes) at one syntactic place: between an object header and its value, inside a
+                           dictionary or an array, before endobj, between objects, in the cross-reference table, around
+                           the trailer keyword, after startxref, in a content stream, before the header, after %%EOF
      Tail(s, v)            the last bytes of unfiltered content stream s overwritten by the cut-short token v
      XrefCut(n, pad)       the startxref block moved in front of the cross-reference section it names (its offset follows
                            the move) and that section cut after n lines, followed by nothing, blank lines or comments: a
@@ -49,6 +53,10 @@ ContentTails == << "/Span#4", "/A#", "/A#4G", "(abc", "(a\\", "(\\1", "<4", "<",
 BodyVals == << "self", "next", "deep", "deepdict", "null", "[ ]", "<< >>", "42", "(s)", "/N", "true", "99 0 R", "[ 1 0 R 1 0 R ]", "<< /Kids 2 0 R >>" >>
 \* small files that ask for much (built by the harness): counts, sizes and nesting far beyond what the bytes can back
 BombNames == << "deep_q", "wide_kids", "objstm_n", "huge_tj", "flate_content", "xref_entries" >>
+RunPlaces == << "before_header", "content", "dict_inside", "dict_value", "array_inside", "before_stream_kw", "between_objs", "obj_before_value", "before_endobj",
+               "xref_after_kw", "xref_between_entries", "before_trailer_kw", "before_trailer_dict", "after_startxref_kw", "before_eof", "after_eof" >>
+RunFillers == << "comment", "commentcr", "space", "nl", "crlf", "nul", "ff", "semicolon", "rparen", "lbrace", "rbrace", "latin1", "bell", "c1" >>
+RunLengths == {4000, 200000}
 Presets == {"strict", "default", "tolerant", "lenient", "skip_errors"}
 
 \* a fault is well-formed for a base b = [name, nslots, classes (seq of class names, one per slot)]
@@ -59,6 +67,7 @@ WellFormed(b, f) ==
     [] f.k = "random" -> f.len \in 0..4096
     [] f.k = "bomb" -> InSeq(f.name, BombNames)
     [] f.k = "tail" -> b.ntails > 0 /\ f.stream \in 0..(b.ntails - 1) /\ InSeq(f.val, ContentTails)
+    [] f.k = "run" -> InSeq(f.place, RunPlaces) /\ InSeq(f.filler, RunFillers) /\ f.n \in RunLengths
     [] f.k = "xrefcut" -> f.lines \in 0..12 /\ f.pad \in {"none", "blank", "comment"}
     [] f.k = "body" -> b.nbodies > 0 /\ f.obj \in 0..(b.nbodies - 1) /\ InSeq(f.val, BodyVals)
     [] OTHER -> FALSE
